@@ -463,7 +463,9 @@ def run(ctx):
         '{1,2,3,4,5,7,8,12,15,16}; thorough: every count 1..16), each thread a random program over probe allocation / '
         'unroot / forced collection, thread-local storage set/get/mem/rem, nested try/throw/catch (0-2 classes, '
         'propagation through non-matching handlers), container work (Array, Table, List, Tree, allocation-heavy '
-        'Strings that trigger automatic collections, library-raised KeyErrors), critical sections by lock/unlock, '
+        'Strings that trigger automatic collections, library-raised KeyErrors, TLS-table-heavy rounds that make the '
+        'thread\'s TLS table grow/rehash/shrink, rounds of forced collections), Thread objects either raw or owned by the '
+        'main thread\'s collector (flag g, half of the cases), critical sections by lock/unlock, '
         'trylock loops and with-blocks (nested in lock order) with non-atomic counter increments, join + read of the '
         'joined thread\'s trace; sched_yield/nanosleep injected between instructions by the case seed.  Every worker '
         'program runs alone first, then all together; the schedule is whatever the kernel produces.  A case is '
@@ -484,7 +486,8 @@ def run(ctx):
     env = dict(os.environ, H_TIMEOUT='20')
     drv = None
     stats = ctx.cov.setdefault('harness_counters', {'cases_with_trylock_contention': 0, 'trylock_misses': 0,
-                                                    'max_threads_simultaneously_running': 0, 'maxpar_histogram': {}})
+                                                    'max_threads_simultaneously_running': 0, 'maxpar_histogram': {},
+                                                    'exceptions_caught_by_class': {}, 'collections_that_finalised_something': 0})
 
     def run_impl(cs):
         if drv:
@@ -510,6 +513,10 @@ def run(ctx):
                 stats['cases_with_trylock_contention'] += 1 if ms else 0
                 stats['max_threads_simultaneously_running'] = max(stats['max_threads_simultaneously_running'], mp)
                 stats['maxpar_histogram'][str(mp)] = stats['maxpar_histogram'].get(str(mp), 0) + 1
+                cpart = o.split(' ## C: ')[1] if ' ## C: ' in o else ''
+                for e in re.findall(r'[,:]C(\d+)', cpart.split(' # ')[0]):
+                    stats['exceptions_caught_by_class'][e] = stats['exceptions_caught_by_class'].get(e, 0) + 1
+                stats['collections_that_finalised_something'] += len(re.findall(r'f\{\d', cpart.split(' # ')[0]))
         return out
     try:
         drv = ctx.build_driver('Threads')
@@ -578,6 +585,14 @@ def run(ctx):
     for i in range(0, len(cases), 100):
         d.feed(cases[i:i + 100])
     ctx.cov['thread_counts'] = sorted(set(c.count('|') - 1 for c in cases))
+    hist = {}
+    for c in cases:
+        for t in c.split('|', 2)[2].replace('|', ' ').split():
+            k = t[0] if t[0] != 'w' else t.split(',')[0]
+            hist[k] = hist.get(k, 0) + 1
+    ctx.cov['instruction_histogram'] = dict(sorted(hist.items()))
+    ctx.cov['program_tokens'] = {'min': min(len(c.split()) for c in cases), 'max': max(len(c.split()) for c in cases),
+                                 'mean': round(sum(len(c.split()) for c in cases) / max(1, len(cases)), 1)}
     ctx.cov['cases_with_collector_owned_thread_objects'] = sum(1 for c in cases if c.split('|')[0].endswith('g'))
 
     if not quick and not os.environ.get('VERIF_NO_TSAN'):
